@@ -185,10 +185,47 @@ def build_estimator(spec):
 
 
 # --------------------------------------------------------- cross-validators
+class ListSplitter:
+    """
+    A hand-written cross-validator (duck-typed, as scikit-learn allows): unequal folds, indices handed
+    out as plain Python lists from a lazily consumed generator.
+    """
+
+    def __init__(self, n_splits=3, offset=0):
+        self.n_splits = n_splits
+        self.offset = offset
+
+    def get_n_splits(self, X=None, y=None, groups=None):  # noqa: U100,N803
+        return self.n_splits
+
+    def split(self, X, y=None, groups=None):  # noqa: U100,N803
+        n = len(X)
+        bounds = [0]
+        for k in range(self.n_splits):
+            # fold sizes grow: 1 : 2 : 3 ... parts of the rows, rotated by offset
+            bounds.append(bounds[-1] + (k + 1))
+        total = bounds[-1]
+        order = [(i + self.offset) % n for i in range(n)]
+        for k in range(self.n_splits):
+            lo, hi = n * bounds[k] // total, n * bounds[k + 1] // total
+            test = sorted(order[lo:hi])
+            train = sorted(order[:lo] + order[hi:])
+            yield train, test
+
+
 def gen_cv_spec(tape, n, tag="cv"):
     kind = tape.weighted(
-        [("default", 3), ("kfold", 2), ("shuffle", 2), ("blockkfold", 2), ("blockshuffle", 2)], f"{tag}.kind"
+        [("default", 3), ("kfold", 2), ("shuffle", 2), ("blockkfold", 2), ("blockshuffle", 2), ("timeseries", 1), ("predefined", 1), ("repeated", 1), ("lists", 1)],
+        f"{tag}.kind",
     )
+    if kind == "timeseries":
+        return ["timeseries", tape.randint(2, 3, f"{tag}.k")]
+    if kind == "predefined":
+        return ["predefined", tape.randint(2, 4, f"{tag}.k"), tape.draw(100, f"{tag}.seed")]
+    if kind == "repeated":
+        return ["repeated", 2, 2, tape.draw(100, f"{tag}.seed")]
+    if kind == "lists":
+        return ["lists", tape.randint(2, 3, f"{tag}.k"), tape.draw(7, f"{tag}.offset")]
     if kind == "default":
         return ["default"]
     if kind == "kfold":
@@ -230,7 +267,36 @@ def build_cv(spec):
         return vd.BlockKFold(spacing=spec[2], n_splits=spec[1], shuffle=spec[3], random_state=spec[4], balance=spec[5])
     if kind == "blockshuffle":
         return vd.BlockShuffleSplit(spacing=spec[2], n_splits=spec[1], test_size=spec[3], random_state=spec[4])
+    if kind == "timeseries":
+        from sklearn.model_selection import TimeSeriesSplit
+
+        return TimeSeriesSplit(n_splits=spec[1])
+    if kind == "predefined":
+        return _Predefined(spec[1], spec[2])
+    if kind == "repeated":
+        from sklearn.model_selection import RepeatedKFold
+
+        return RepeatedKFold(n_splits=spec[1], n_repeats=spec[2], random_state=spec[3])
+    if kind == "lists":
+        return ListSplitter(n_splits=spec[1], offset=spec[2])
     raise ValueError(spec)
+
+
+class _Predefined:
+    """sklearn's PredefinedSplit needs the fold labels up front; they are derived from the row count at split time."""
+
+    def __init__(self, k, seed):
+        self.k, self.seed = k, seed
+
+    def get_n_splits(self, X=None, y=None, groups=None):  # noqa: U100,N803
+        return self.k
+
+    def split(self, X, y=None, groups=None):  # noqa: U100,N803
+        from sklearn.model_selection import PredefinedSplit
+
+        folds = np.random.RandomState(self.seed).randint(0, self.k, len(X))
+        folds[: self.k] = np.arange(self.k)  # every fold occurs
+        return PredefinedSplit(folds).split()
 
 
 def model_cv(spec):
@@ -249,11 +315,17 @@ def _cube_root_loss(y_true, y_pred, sample_weight=None):
     return float(np.average(err, weights=sample_weight))
 
 
-SCORINGS = ["none", "r2", "neg_mean_squared_error", "neg_mean_absolute_error", "neg_root_mean_squared_error", "custom"]
+def _plain_scorer(estimator, X, y, sample_weight=None):  # noqa: N803
+    """A scorer given as a bare callable(estimator, X, y, sample_weight=None), not built with make_scorer."""
+    err = np.abs(np.asarray(y) - np.asarray(estimator.predict(X))) ** 1.5
+    return -float(np.average(err, weights=sample_weight))
+
+
+SCORINGS = ["none", "r2", "neg_mean_squared_error", "neg_mean_absolute_error", "neg_root_mean_squared_error", "custom", "plain"]
 
 
 def gen_scoring(tape, tag="scoring"):
-    return tape.weighted([(s, 3 if s in ("none", "custom") else 2) for s in SCORINGS], tag)
+    return tape.weighted([(s, 3 if s in ("none", "custom") else 2 if s != "plain" else 1) for s in SCORINGS], tag)
 
 
 def build_scoring(name):
@@ -263,6 +335,8 @@ def build_scoring(name):
         from sklearn.metrics import make_scorer
 
         return make_scorer(_cube_root_loss, greater_is_better=False)
+    if name == "plain":
+        return _plain_scorer
     return name
 
 
@@ -282,6 +356,6 @@ def metric(name, y, p, w):
         return -np.average(np.abs(y - p), weights=w)
     if name == "neg_root_mean_squared_error":
         return -np.sqrt(np.average((y - p) ** 2, weights=w))
-    if name == "custom":
+    if name in ("custom", "plain"):
         return -np.average(np.abs(y - p) ** 1.5, weights=w)
     raise ValueError(name)
